@@ -42,11 +42,13 @@ let run () = iter_lines (fun line ->
           let st = (match t.kind with
               | 'P' | 'O' -> Code Z0 | 'C' | 'E' -> Code (z_of_int t.code) | 'S' -> Code (z_of_int (if m.cram then 80 else skip_of x))
               | 'Q' -> if m.cram then ESkipped else Code (z_of_int (skip_of x))
-              | 'T' | 'G' -> TimedOut | 'D' -> EDetached | 'K' -> Unknown | _ -> failwith "kind") in
+              | 'T' | 'G' -> TimedOut | 'D' -> EDetached | 'K' -> Unknown | 'X' -> Code (z_of_int 3) | _ -> failwith "kind") in
           { status = st; out_ok = (t.kind <> 'O') }) all in
       let total = (match cli_timeout with Some t -> Some (n_of_int t) | None ->
                      (match m.total with Some t -> Some (n_of_int t) | None -> Some default_document_timeout_ms)) in
-      let e = if m.cram then exec_script default_skip_document_code rs
+      (* Cram: the first test case that leaves the script early with a plain `exit 3` *)
+      let early = (let rec f i = function [] -> None | (_, _, t) :: r -> if t.kind = 'X' then Some (nat_of_int i) else f (i + 1) r in f 0 all) in
+      let e = if m.cram then exec_script2 default_skip_document_code rs early
               else exec_timed tcs rs total (List.map (fun _ -> N0) tcs) in
       (m, all, tcs, rs, e)) mains in
     let model_docs = List.map (fun (_, _, tcs, _, e) -> (tcs, e)) plan in
@@ -62,7 +64,7 @@ let run () = iter_lines (fun line ->
       | [] -> []
       | (m, all, _, rs, e) :: rest ->
         let reached =
-          if m.cram then (let rec f i = function [] -> i | (r : rstep) :: t -> (match r.status with Unknown | TimedOut | ESkipped -> i + 1 | _ -> f (i + 1) t) in f 0 rs)
+          if m.cram then (let rec f i = function [] -> i | ((_, _, t), (r : rstep)) :: rest -> (match r.status with Unknown | TimedOut | ESkipped -> i + 1 | _ -> if t.kind = 'X' then i + 1 else f (i + 1) rest) in f 0 (List.combine all rs))
           else (match e with
               | ExOk _ -> (let rec f i = function [] -> i | (r : rstep) :: t -> (match r.status with Unknown -> i + 1 | _ -> f (i + 1) t) in f 0 rs)
               | ExSkipped i | ExFailed i -> int_of_nat i + 1
@@ -72,7 +74,7 @@ let run () = iter_lines (fun line ->
     let exp_marks = marks_until plan in
     let has k = List.exists (fun d -> List.exists (fun t -> t.kind = k) d.tests) docs in
     bump (Printf.sprintf "exit:%d" mexit); bump (Printf.sprintf "docs:%d" (List.length mains));
-    List.iter (fun k -> if has k then bump (Printf.sprintf "has:%c" k)) ['P'; 'O'; 'C'; 'E'; 'S'; 'Q'; 'T'; 'G'; 'D'; 'K'];
+    List.iter (fun k -> if has k then bump (Printf.sprintf "has:%c" k)) ['P'; 'O'; 'C'; 'E'; 'S'; 'Q'; 'T'; 'G'; 'D'; 'K'; 'X'];
     if pres <> [] then bump "has:prepend"; if apps <> [] then bump "has:append";
     if List.exists (fun d -> d.cram) mains then bump "has:cram";
     note_distinct docs_s (List.length (List.concat_map (fun d -> d.tests) docs) >= 2); sample line;
@@ -96,6 +98,9 @@ let run () = iter_lines (fun line ->
     let expect_exit = if errored then 1 else if any "failed" || any "timeout" then 50 else 0 in
     if not errored && iexit <> expect_exit then
       report "SPEC:C20" (Printf.sprintf "exit status %d but the reported results imply %d" iexit expect_exit) line;
+    (* C15: a document that is skipped does not make the run fail *)
+    if not errored && iexit = 1 && List.exists (fun (_, _, _, _, e) -> match e with ExSkipped _ -> true | _ -> false) plan then
+      report "SPEC:C15" "a test case ended in its skip code, no document failed to execute, and yet the run ended with status 1 instead of skipping the document" line;
     if errored && iexit <> 1 then report "SPEC:C20" (Printf.sprintf "a document could not be executed but the exit status is %d" iexit) line;
     if not errored then begin
       (* C20: every executed test once and in order; one result per non-detached test *)
